@@ -9,6 +9,9 @@ import (
 )
 
 func init() {
+	for _, n := range []string{"auth", "codec", "sortlim"} {
+		ownsReplay[n] = true
+	}
 	engines["seq"] = seq.Engine{}
 	engines["codec"] = codec.Engine{}
 	engines["sortlim"] = sortlim.Engine{}
